@@ -125,6 +125,14 @@ Theorem C06_other_packages_never :
 Proof. exact execute_calls_own_package. Qed.
 Print Assumptions C06_other_packages_never.
 
+(* a whole run (trace and outcome) is the same for every order in which each package's TypesInfo.Defs is met *)
+Theorem C06_run_independent_of_defs_order :
+  forall all pkgs pkgs' gens G,
+    NoDup (keys G) -> Forall pkg_wf pkgs -> Forall2 pkg_perm pkgs pkgs' ->
+    execute fixed_all all pkgs gens G = execute fixed_all all pkgs' gens G.
+Proof. exact execute_perm. Qed.
+Print Assumptions C06_run_independent_of_defs_order.
+
 (* ---- Defer ---- *)
 
 (* the queue loop terminates (enough fuel exists) … *)
